@@ -1,6 +1,7 @@
 package main
 
 import (
+	"fmt"
 	"go/constant"
 	"go/token"
 	"go/types"
@@ -862,7 +863,7 @@ func c19persistIndependent(c *Ctx, r *Result) {
 		}
 	}
 	if n < 8 {
-		r.Errorf("C19.5: only %d write-back calls found in the attribute/link write paths", n)
+		r.Shortfall(c, "C19.5", fmt.Sprintf("C19.5: only %d write-back calls found in the attribute/link write paths", n))
 	}
 	r.Floor("C19.5", 8)
 }
